@@ -58,6 +58,8 @@ type outcome struct {
 	nontrivial bool
 	leases     int
 	steps      int
+
+	batchReqOverflows int
 }
 
 // ---------------------------------------------------------------- model
@@ -69,13 +71,14 @@ const (
 )
 
 type mconn struct {
-	id     int // connection id at the upstream
-	state  int
-	stream *mstream
-	dirty  int  // unanswered requests of reset streams still on this connection (absorbed F11 / multiplex)
-	leaked bool // absorbed F10: the pool counts it, nobody can ever use it
-	either bool // after Shutdown / GoAway: the pool may close it when its exchange ends (unspecified)
-	byPool bool // closed by the pool: the upstream must see the close
+	id       int // connection id at the upstream
+	state    int
+	stream   *mstream
+	dirty    int  // unanswered requests of reset streams still on this connection (absorbed F11 / multiplex)
+	wasDirty bool // a reset connection that was re-pooled (absorbed F11): later anomalies on it share that root cause
+	leaked   bool // absorbed F10: the pool counts it, nobody can ever use it
+	either   bool // after Shutdown / GoAway: the pool may close it when its exchange ends (unspecified)
+	byPool   bool // closed by the pool: the upstream must see the close
 }
 
 const (
@@ -106,12 +109,16 @@ type run struct {
 	strs  []*mstream
 	mode  int
 	shut  bool
-	step  int
-	tok   int
+	// requests other hosts of the same cluster hold (max_requests is a cluster-wide threshold, a pool
+	// belongs to one host): simulated through the exported resource manager
+	foreign int
+	step    int
+	tok     int
 
 	sawOverflow bool
 	sawReset    bool
-	dead        bool // pool unusable (absorbed deadlock): stop
+	ackBusy     map[string]bool // busy requests already attributed to an absorbed finding
+	dead        bool            // pool unusable (absorbed deadlock): stop
 }
 
 func (r *run) logf(format string, a ...interface{}) {
@@ -211,7 +218,7 @@ func (r *run) expect() books {
 	n := int64(len(r.active()))
 	b.reqAct = n
 	if r.h.MaxReq != 0 { // resource.Increase is a no-op when the threshold is 0 (unlimited)
-		b.reqCur = n
+		b.reqCur = n + int64(r.foreign)
 	}
 	if r.pingpong() {
 		b.haveBooks, b.haveConn = true, true
@@ -281,13 +288,13 @@ func (r *run) upstreamView() (hard *failure, soft string) {
 	if r.pingpong() {
 		for _, uc := range ucs {
 			for _, q := range uc.Reqs {
-				if !q.Busy {
+				if !q.Busy || r.ackBusy[q.Token] {
 					continue
 				}
 				mc := r.conn(uc.ID)
-				if mc != nil && mc.dirty > 0 && r.h.Kind == pool.PingPong {
+				if mc != nil && mc.wasDirty && r.h.Kind == pool.PingPong {
 					if r.known(sigF11) {
-						q.Busy = false
+						r.ackBusy[q.Token] = true
 						continue
 					}
 					return &failure{sig: sigF11, step: r.step, msg: fmt.Sprintf("request %q was sent on upstream connection c%d while the request of a locally reset stream is still unanswered on it: the reset connection was put back into the pool instead of being closed", q.Token, uc.ID)}, ""
@@ -319,6 +326,17 @@ func (r *run) upstreamView() (hard *failure, soft string) {
 			return r.failf(false, "live-connection-closed", "the pool closed upstream connection c%d (%s) which it still counts as %s", uc.ID, uc.PeerErr, map[int]string{cLeased: "leased", cIdle: "idle"}[mc.state]), ""
 		}
 	}
+	if !r.pingpong() {
+		open := 0
+		for _, uc := range ucs {
+			if uc.Open() {
+				open++
+			}
+		}
+		if ca, _, _ := r.rig.Gauges(); int(ca) != open {
+			soft = fmt.Sprintf("connection_active %d != %d connections open at the upstream", ca, open)
+		}
+	}
 	return nil, soft
 }
 
@@ -334,7 +352,7 @@ func (r *run) streamsView() *failure {
 		}
 		if st.Received > 0 && st.RespToken != s.token {
 			f := r.failf(false, "response-misdelivered", "request %q received the response of request %q", s.token, st.RespToken)
-			if s.conn != nil && s.conn.dirty > 0 && r.h.Kind == pool.PingPong {
+			if s.conn != nil && s.conn.wasDirty && r.h.Kind == pool.PingPong {
 				f.sig = sigF11
 			}
 			return f
@@ -418,10 +436,12 @@ func trimStack(s string) string {
 
 // spec-level capacity: would a new stream have to be admitted?
 func (r *run) capacity() (reqOver, connOver bool) {
-	n := len(r.active())
+	n := len(r.active()) + r.foreign
 	reqOver = r.h.MaxReq > 0 && n >= int(r.h.MaxReq)
 	if r.pingpong() {
-		connOver = len(r.idle) == 0 && r.h.MaxConn > 0 && r.live() >= int(r.h.MaxConn)
+		// max_connections bounds the connections in use: leasing an idle one counts like opening a new one
+		// (after a concurrent over-admission the pools rightly refuse to hand out an idle connection)
+		connOver = r.h.MaxConn > 0 && r.live()-len(r.idle) >= int(r.h.MaxConn)
 	}
 	return
 }
@@ -461,7 +481,7 @@ func (r *run) lease() *failure {
 			if r.leaked() > 0 && r.h.MaxConn > 0 && r.live()+r.leaked() >= int(r.h.MaxConn) && r.known(sigF10) {
 				return r.settle("lease-overflow")
 			}
-			f := r.failf(false, "capacity-not-available", "NewStream answered Overflow although capacity is free (active requests %d of max_requests %d; live connections %d of max_connections %d, idle %d); model: %s",
+			f := r.failf(false, "capacity-not-available", "NewStream answered Overflow although capacity is free (active requests %d (+ other hosts) of max_requests %d; live connections %d of max_connections %d, idle %d); model: %s",
 				len(r.active()), r.h.MaxReq, r.live(), r.h.MaxConn, hadIdle, r.describe())
 			if r.leaked() > 0 {
 				f.sig = sigF10
@@ -473,15 +493,14 @@ func (r *run) lease() *failure {
 		} else {
 			r.class("overflow-connections")
 		}
-		f := r.settle("lease-overflow")
-		if f != nil && r.h.Kind == pool.HTTP1 && reqOver && strings.Contains(f.sig, "books-differ") {
-			// F10: the client obtained before the max_requests test is neither used nor given back
-			return r.absorbF10(hadIdle, f)
+		if r.h.Kind == pool.HTTP1 && reqOver && diffBooks(r.read(), r.expect()) != "" {
+			// NewStream returned: the books are final. F10: the client obtained before the max_requests
+			// test is neither used nor given back.
+			if f, explained := r.absorbF10(hadIdle); explained && f != nil {
+				return f
+			}
 		}
-		if f != nil && r.h.Kind == pool.HTTP1 && reqOver && strings.Contains(f.sig, "unexplained-connection") {
-			return r.absorbF10(hadIdle, f)
-		}
-		return f
+		return r.settle("lease-overflow")
 	case res.Reason != "":
 		r.logf("lease %s: %s", tok, res.Reason)
 		r.class("conn-failure")
@@ -594,16 +613,32 @@ func waitEither(d time.Duration, cond func() bool) bool {
 }
 
 // absorbF10 explains a books mismatch after a max_requests overflow of the HTTP/1 pool by "the
-// client taken before the test was dropped"; if that explanation fits exactly and the finding is
-// listed, the model carries the leaked connection along.
-func (r *run) absorbF10(hadIdle int, orig *failure) *failure {
+// client taken before the test was dropped". If that explanation fits the books exactly the defect is
+// F10: reported, or - when listed - carried along in the model (the leaked connection stays counted).
+func (r *run) absorbF10(hadIdle int) (*failure, bool) {
 	var leaked *mconn
 	if hadIdle > 0 {
 		leaked = r.idle[len(r.idle)-1]
 		r.dropIdle(leaked)
 		leaked.leaked = true
 	} else {
-		// a fresh connection was opened for the refused request: it shows up at the upstream without requests
+		leaked = &mconn{id: -1, state: cIdle, leaked: true}
+		r.conns = append(r.conns, leaked)
+	}
+	undo := func() {
+		if hadIdle > 0 {
+			leaked.leaked = false
+			r.idle = append(r.idle, leaked)
+		} else {
+			r.conns = r.conns[:len(r.conns)-1]
+		}
+	}
+	if diffBooks(r.read(), r.expect()) != "" {
+		undo()
+		return nil, false
+	}
+	if hadIdle == 0 {
+		// the fresh connection opened for the refused request shows up at the upstream without requests
 		var found *pool.UConn
 		waitEither(r.d, func() bool {
 			for _, uc := range r.rig.Up.Conns() {
@@ -615,22 +650,17 @@ func (r *run) absorbF10(hadIdle int, orig *failure) *failure {
 			return false
 		})
 		if found == nil {
-			return orig
+			undo()
+			return nil, false
 		}
-		leaked = &mconn{id: found.ID, state: cIdle, leaked: true}
-		r.conns = append(r.conns, leaked)
+		leaked.id = found.ID
 	}
-	if d := r.poll(func() string { return diffBooks(r.read(), r.expect()) }); d != "" {
-		// the explanation does not fit: report the original complaint
-		return orig
-	}
-	f := &failure{sig: sigF10, step: r.step, msg: fmt.Sprintf("NewStream on the HTTP/1 pool answered Overflow because max_requests (%d) is reached, but the client it had already taken (%s, upstream connection c%d) was neither used nor returned: the pool's total stays at %d with %d idle while only %d connections are leased; the connection stays open and unusable. model: %s",
-		r.h.MaxReq, map[bool]string{true: "an idle one", false: "a newly connected one"}[hadIdle > 0], leaked.id, r.expect().total, len(r.idle), len(r.active()), r.describe())}
 	if r.known(sigF10) {
 		r.class("absorbed-F10")
-		return nil
+		return nil, true
 	}
-	return f
+	return &failure{sig: sigF10, step: r.step, msg: fmt.Sprintf("NewStream on the HTTP/1 pool answered Overflow because max_requests (%d) is reached, but the client it had already taken (%s, upstream connection c%d) was neither used nor returned: books %s with %d requests active; the connection stays open, counted and unusable. model: %s",
+		r.h.MaxReq, map[bool]string{true: "an idle one", false: "a newly connected one"}[hadIdle > 0], leaked.id, r.read(), len(r.active()), r.describe())}, true
 }
 
 func (r *run) reply(s *mstream, opt pool.ReplyOpt, name string) *failure {
@@ -712,29 +742,27 @@ func (r *run) reset(s *mstream) *failure {
 	}
 	c.stream = nil
 	r.closeConn(c, true)
-	want := r.expect()
-	f := r.settle("local-reset")
-	if f == nil || r.h.Kind != pool.PingPong {
-		return f
-	}
-	// F11: does "the connection went back to the idle list" explain the mismatch exactly?
-	c.state, c.byPool = cIdle, false
-	c.dirty++
-	r.idle = append(r.idle, c)
-	if d := r.poll(func() string { return diffBooks(r.read(), r.expect()) }); d != "" {
+	if r.h.Kind == pool.PingPong && diffBooks(r.read(), r.expect()) != "" {
+		// ResetStream is synchronous, the books are final. F11: does "the connection went back to the
+		// idle list" explain them exactly?
+		c.state, c.byPool = cIdle, false
+		c.dirty++
+		r.idle = append(r.idle, c)
+		uc := r.rig.Up.Conn(c.id)
+		was := c.wasDirty
+		c.wasDirty = true
+		if diffBooks(r.read(), r.expect()) == "" && uc != nil && uc.Open() {
+			if r.known(sigF11) {
+				r.class("absorbed-F11")
+				return r.settle("local-reset")
+			}
+			return &failure{sig: sigF11, step: r.step, msg: fmt.Sprintf("after a local reset of request %q the ping-pong pool put upstream connection c%d back on its idle list (books: %s) although the request is still unanswered on it; the connection is not closed and will carry the next request. model: %s", s.token, c.id, r.read(), r.describe())}
+		}
 		r.closeConn(c, true)
 		c.dirty--
-		_ = want
-		return f
+		c.wasDirty = was
 	}
-	if uc := r.rig.Up.Conn(c.id); uc == nil || !uc.Open() {
-		return f
-	}
-	if r.known(sigF11) {
-		r.class("absorbed-F11")
-		return nil
-	}
-	return &failure{sig: sigF11, step: r.step, msg: fmt.Sprintf("after a local reset of request %q the ping-pong pool put upstream connection c%d back on its idle list (books %s) although the request is still unanswered on it; the connection is not closed and will carry the next request. model: %s", s.token, c.id, r.read(), r.describe())}
+	return r.settle("local-reset")
 }
 
 func (r *run) late(s *mstream) *failure {
@@ -975,6 +1003,23 @@ func (r *run) do(op Op) (f *failure, skipped bool) {
 		return r.setMode(pool.ModeRST), false
 	case "refuse":
 		return r.setMode(pool.ModeNoListen), false
+	case "foreign+":
+		if r.h.MaxReq == 0 || r.foreign >= int(r.h.MaxReq) {
+			return nil, true
+		}
+		r.logf("another host of the cluster takes a request slot")
+		r.class("foreign-load")
+		r.rig.Info.ResourceManager().Requests().Increase()
+		r.foreign++
+		return r.settle("foreign-load"), false
+	case "foreign-":
+		if r.foreign == 0 {
+			return nil, true
+		}
+		r.logf("another host of the cluster releases a request slot")
+		r.rig.Info.ResourceManager().Requests().Decrease()
+		r.foreign--
+		return r.settle("foreign-load"), false
 	case "shutdown":
 		return r.shutdown(), false
 	case "close":
@@ -988,6 +1033,10 @@ func (r *run) finish() *failure {
 	r.step++
 	if f := r.setMode(pool.ModeAccept); f != nil {
 		return f
+	}
+	for r.foreign > 0 {
+		r.rig.Info.ResourceManager().Requests().Decrease()
+		r.foreign--
 	}
 	for _, s := range r.active() {
 		r.step++
@@ -1051,7 +1100,7 @@ func execute(part string, h History, d time.Duration) *outcome {
 	}
 	defer rig.Close()
 	rig.Limit = d
-	r := &run{h: h, part: part, rig: rig, out: out, d: d}
+	r := &run{h: h, part: part, rig: rig, out: out, d: d, ackBusy: map[string]bool{}}
 	out.classes["kind:"+string(h.Kind)] = true
 	for i, op := range h.Ops {
 		r.step = i + 1
